@@ -50,6 +50,8 @@ def _one(args):
     rules = sorted({f.rule for f in ctx.findings if f.key not in base_keys})
     if any(r.startswith(m.expect) for r in rules):
         return m.name, "caught", ",".join(rules)
+    if ctx.deferred and not rules:
+        return m.name, "error", "; ".join(ctx.deferred)[:300]
     return m.name, "missed", ",".join(rules)
 
 
